@@ -19,6 +19,9 @@
 (*   - a failure while the file grows for a new counter leaves that counter's  *)
 (*     amount in memory; every other counter keeps being persisted;            *)
 (*   - a failure while reading a counter back only fails that read;            *)
+(*   - a counter whose name is longer than 4096 bytes cannot be stored: its     *)
+(*     amount always stays in memory (and that harms nobody else: a later       *)
+(*     growth of the file by another counter still succeeds);                   *)
 (*   - the uploader: Run returns, no panic escapes, a count file is deleted    *)
 (*     only if a report of its week exists, no other count file is touched.    *)
 (*                                                                            *)
@@ -29,7 +32,8 @@
 EXTENDS Integers, Sequences, FiniteSets, TLC, Json
 
 Rec == ndJsonDeserialize("c05rec.ndjson")
-(* Rec[s] = [scn, family ("counter" | "upload"), pairs (BOOLEAN), steps: Seq([op, ctr, n]),       *)
+(* Rec[s] = [scn, family ("counter" | "upload"), pairs (BOOLEAN), steps: Seq([op, ctr, n, toolong]), *)
+(*           (toolong: the counter's name is longer than the 4096 bytes a record can hold)            *)
 (*           calls: Seq([i, step, op, kind, pc, err])]                                              *)
 
 CONSTANTS Errnos,        \* errno names injected for single faults
@@ -106,6 +110,7 @@ StepState(s, plan, k, st) ==
 ModeOf(s, plan, k, before, after) ==
     LET step == Rec[s].steps[k] IN
     IF step.op # "add" THEN "-"
+    ELSE IF step.toolong THEN "memory"
     ELSE IF before.park = "yes" THEN "memory"
     ELSE IF before.park = "any" THEN "any"
     ELSE IF ~before.opened THEN "memory"
@@ -119,7 +124,7 @@ Fold(s, plan, k, st, acc) ==
     ELSE LET st2 == StepState(s, plan, k, st)
              fog == k >= FogFrom(s, plan)
              p   == IF Rec[s].family = "upload" THEN [park |-> "-", mode |-> "-"]
-                    ELSE IF fog THEN [park |-> IF st2.park = "yes" THEN "yes" ELSE "any", mode |-> IF Rec[s].steps[k].op = "add" THEN (IF st.park = "yes" THEN "memory" ELSE "any") ELSE "-"]
+                    ELSE IF fog THEN [park |-> IF st2.park = "yes" THEN "yes" ELSE "any", mode |-> IF Rec[s].steps[k].op = "add" THEN (IF st.park = "yes" \/ Rec[s].steps[k].toolong THEN "memory" ELSE "any") ELSE "-"]
                     ELSE [park |-> st2.park, mode |-> ModeOf(s, plan, k, st, st2)]
              st3 == IF fog /\ st2.park # "yes" THEN [st2 EXCEPT !.park = "any"] ELSE st2
          IN  Fold(s, plan, k + 1, st3, Append(acc, p))
@@ -146,7 +151,7 @@ FaultFreePersists ==
     (fplan = <<>> /\ Rec[scn].family = "counter") =>
         \A k \in Steps : k < FogFrom(scn, fplan) =>
             /\ pred[k].park = "no"
-            /\ (Rec[scn].steps[k].op = "add" /\ \E j \in 1..(k - 1) : RotateLike(Rec[scn].steps[j].op)) => pred[k].mode = "persist"
+            /\ (Rec[scn].steps[k].op = "add" /\ ~Rec[scn].steps[k].toolong /\ \E j \in 1..(k - 1) : RotateLike(Rec[scn].steps[j].op)) => pred[k].mode = "persist"
 (* failures that the documentation declares harmless predict what no failure predicts *)
 BenignChangesNothing == (\A j \in DOMAIN fplan : Effect(scn, fplan[j][1]) = "none") => pred = Predict(scn, <<>>)
 (* a parked file has a cause: a non-benign failure in an open / rotate / read step at or before it *)
@@ -155,10 +160,12 @@ ParkHasCause == \A k \in Steps : pred[k].park = "yes" =>
 (* a growth failure keeps exactly that counter in memory: other counters added later are persisted *)
 GrowthIsLocal ==
     (Len(fplan) = 1 /\ Effect(scn, fplan[1][1]) = "growth") =>
-        \A k \in Steps : (Rec[scn].steps[k].op = "add" /\ k < FogFrom(scn, fplan) /\ Rec[scn].steps[k].ctr # Rec[scn].steps[CallAt(scn, fplan[1][1]).step].ctr
+        \A k \in Steps : (Rec[scn].steps[k].op = "add" /\ ~Rec[scn].steps[k].toolong /\ k < FogFrom(scn, fplan) /\ Rec[scn].steps[k].ctr # Rec[scn].steps[CallAt(scn, fplan[1][1]).step].ctr
                           /\ \E j \in 1..(k - 1) : RotateLike(Rec[scn].steps[j].op)) => pred[k].mode = "persist"
 (* a second fault that cannot be placed never makes the prediction sharper than the first alone *)
 PairNoSharper ==
     (Len(fplan) = 2 /\ Effect(scn, fplan[1][1]) = "park") => pred = Predict(scn, <<fplan[1]>>)
-Sane == TypeOK /\ ParkSticky /\ ParkedMeansMemory /\ FaultFreePersists /\ BenignChangesNothing /\ ParkHasCause /\ GrowthIsLocal /\ PairNoSharper
+(* a name that cannot be stored is kept in memory whatever else happens *)
+TooLongInMemory == \A k \in Steps : (Rec[scn].steps[k].op = "add" /\ Rec[scn].steps[k].toolong) => pred[k].mode = "memory"
+Sane == TypeOK /\ TooLongInMemory /\ ParkSticky /\ ParkedMeansMemory /\ FaultFreePersists /\ BenignChangesNothing /\ ParkHasCause /\ GrowthIsLocal /\ PairNoSharper
 =============================================================================
